@@ -27,10 +27,18 @@ CHECKS = {
   text="Coq theorems C11_rook/C11_bishop/C11_queen: for every square and EVERY occupancy the model of init_*_magics + slider_attack<> (instantiated with the magics and index widths re-extracted from the working tree on every run) returns exactly the ray-walk-until-first-blocker set; proved by an exhaustive kernel sweep over all 107,648 table entries lifted to all occupancies by pdep/pext and walk-independence lemmas. Leaper, ray, LINES, FULL_LINES and castling tables: the tables the current code built (dumped each run) are proved equal to their geometric specs entry by entry. Tie: B1 regeneration of Gen/MagicData.v + B2 exhaustive differential run of the real slider_attack<>/tables against the extracted spec.",
   note="Trusted: Coq kernel + vm_compute; dumper.cpp; extraction (ExtrOcamlBasic) and the two drivers; the model of the init loop is hand-written and tied by B2 (exhaustive over the 107,648 relevant subsets + random full occupancies). shift<> is proved linear and single-square pawn attacks exact; no axioms (Print Assumptions: closed under the global context).",
   tech="Coq proof: exhaustive vm_compute sweep + lifting lemma; translator-regenerated data; exhaustive differential correspondence"),
+ "C15": dict(
+  text="Rules-level spec of the three answers (capture = a piece or en-passant pawn is removed, quiet = nothing captured or promoted, gives check = opponent king attacked in Rules.move_board) and an algorithmic Coq model of move_is_quiet / move_is_capture / move_gives_check over the engine representation (slider lookups replaced by the ray walk, justified by theorem C11). Every legal move of generated positions (promotion-, castling-, pin-, en-passant-heavy templates) is classified by the engine, the spec and the algorithmic model; all three must agree. Theorems so far: spec-level consistency (quiet excludes capture, castling is quiet).",
+  note="Partial: the refinement theorem 'algorithmic model = spec for every legal move of every valid position' (geometry of direct / discovered / en-passant / castling checks) is not proved yet; that half rests on the 3-way correspondence. No axioms.",
+  tech="Coq spec + algorithmic model; 3-way differential correspondence on every legal move of generated positions"),
  "C16": dict(
   text="Coq theorems: the packed Move and MoveInfo codecs decode to the fields they were built from for all in-range fields (general arithmetic proof, plus injectivity and distinctness of the castling codes); C16_uci_roundtrip: for every position and every legal move, parsing the printed UCI text gives the same move (castling recognised only for a king on e1/e8; no legal king move has that shape). Tie: exhaustive run of the C++ accessors on all 64x64x5 triples / 17-bit codes / a MoveInfo grid against the model, and every legal move and every position of generated games printed, parsed back and reloaded from FEN on both sides.",
   note="FEN round trip is currently established by correspondence + the executable model (Fen.fen_print/fen_parse), the general Coq round-trip theorem for FEN is not proved yet (listed in DESIGN.md). Trusted: Coq kernel, extraction, drivers; std::istringstream tokenisation is modelled. No axioms.",
   tech="Coq proof (bit-field arithmetic, string round trip) + exhaustive / generated differential correspondence"),
+ "C17": dict(
+  text="Coq model of Position::san / san_without_check / parse_san with SAN_REGEX as an explicit greedy backtracking matcher. Every legal move of generated positions (3-5 like pieces reaching one square on the same file / rank / both, castling with check and mate, promotions with capture and check, the 218-move position) is printed and parsed back by the engine and by the model: texts must be equal and the engine's own parse-back must return the move; foreign SAN from scid.eco (and mutated variants) must resolve identically.",
+  note="Partial: the round-trip theorem parse_san p (san p m) = Some m for all valid positions is not proved yet (uniqueness of the regex decomposition and of the disambiguation); std::regex is modelled, tied by the correspondence. No axioms.",
+  tech="Coq model of printer, parser and regex; differential correspondence on every legal move + foreign SAN"),
 }
 
 NOT_YET = "check not built yet in this round (planned, see DESIGN.md section 10); not a limit of the technique"
